@@ -6,6 +6,7 @@ import (
 	"go/token"
 	"go/types"
 	"hash/fnv"
+	"sort"
 	"strings"
 
 	"golang.org/x/tools/go/ssa"
@@ -295,6 +296,9 @@ func (e *Enc) instr(fr *Frame, in ssa.Instruction, st *State, rb Term) (*State, 
 		// closures stored into locals keep their static identity via the frame map
 		if a.Ref != "" {
 			st = e.Contain(st, a.Ref, v) // stays private only inside a private object
+		}
+		if fr == fr.top && fr.contract != nil {
+			e.storeAsserts(fr, x, v, st, rb)
 		}
 		st = e.Store(st, a, e.coerce(v, a.Typ))
 		if v.Clo != nil && a.Ref == "" && len(a.Path) == 0 {
@@ -1097,4 +1101,67 @@ func effectivelyFinal(fn *ssa.Function, k int, binding ssa.Value) (types.Type, b
 		}
 	}
 	return pt.Elem(), true
+}
+
+// storeAsserts: cut-point assertions `assert at store <field>#k: e` - evaluated in the state right
+// before the k-th store (source order) into a field of that name; `stored` denotes the value.
+func (e *Enc) storeAsserts(fr *Frame, st0 *ssa.Store, v Val, st *State, rb Term) {
+	fa, ok := st0.Addr.(*ssa.FieldAddr)
+	if !ok {
+		return
+	}
+	has := false
+	for _, ca := range fr.contract.Asserts {
+		if ca.Kind == "store" {
+			has = true
+		}
+	}
+	if !has {
+		return
+	}
+	fieldName := func(f *ssa.FieldAddr) string {
+		pt, ok := f.X.Type().Underlying().(*types.Pointer)
+		if !ok {
+			return ""
+		}
+		u, ok := pt.Elem().Underlying().(*types.Struct)
+		if !ok {
+			return ""
+		}
+		return u.Field(f.Field).Name()
+	}
+	name := fieldName(fa)
+	var sites []*ssa.Store
+	for _, b := range fr.fn.Blocks {
+		for _, in := range b.Instrs {
+			if s2, ok := in.(*ssa.Store); ok {
+				if f2, ok := s2.Addr.(*ssa.FieldAddr); ok && fieldName(f2) == name {
+					sites = append(sites, s2)
+				}
+			}
+		}
+	}
+	sort.SliceStable(sites, func(i, j int) bool { return sites[i].Pos() < sites[j].Pos() })
+	ord := 0
+	for i, s2 := range sites {
+		if s2 == st0 {
+			ord = i + 1
+		}
+	}
+	for k, ca := range fr.contract.Asserts {
+		if ca.Kind != "store" || ca.Callee != name || ca.N != ord {
+			continue
+		}
+		henv := e.hostEnv(fr)
+		henv.vars["stored"] = v
+		f, watch := e.evalBoolWatch(henv, ca.Clause.Expr, st, fr.entry, ca.Clause)
+		fr.callN[fmt.Sprintf("assertseen:%d", k)]++
+		oname := fmt.Sprintf("assert@store.%s#%d", name, ord)
+		if c := fr.callN["assertname:"+oname]; c > 0 {
+			oname = fmt.Sprintf("%s.%d", oname, c+1)
+		}
+		fr.callN["assertname:"+fmt.Sprintf("assert@store.%s#%d", name, ord)]++
+		o := e.ob(fr, "assert", oname, rb, f, ca.Clause.Src, st0.Pos())
+		o.Watch = append(e.paramWatch(fr), watch...)
+	}
 }
